@@ -44,7 +44,7 @@ def _ids(tier):
     for level, core_only in uprob.plan(tier):
         if level == 3:
             continue
-        for cid, _ps in uprob.instances(level, SLOTS, core_only):
+        for cid in uprob.ids(level, SLOTS, core_only):
             if level == 2 and tier == "quick":
                 names = set(s for s, _ in cid)
                 if "metric" not in names and names != {"goal", "init"} and names != {"undef", "goal"}:
